@@ -172,11 +172,84 @@ func genC15(r *vc.Run) {
 	}
 }
 
+// c17ThirdCurve: the generic doors and the arithmetic on a curve outside the library's registry (NIST P-256, a = -3,
+// served by Go's constant-time implementation rather than btcec): the checks of NewECPoint and the results of
+// Add / ScalarMult / ScalarBaseMult against the Coq arithmetic with the curve's own a, b, p, q.
+func c17ThirdCurve(r *vc.Run, g rng) {
+	cn := "p256"
+	ec := curveByName(cn)
+	q, P := ec.Params().N, ec.Params().P
+	ks := []*big.Int{big.NewInt(1), big.NewInt(2), big.NewInt(3), add(q, -1), g.below(q), g.below(q)}
+	for len(ks) < r.Pick(6, 16) {
+		ks = append(ks, g.below(q))
+	}
+	var pts []val.V
+	for _, k := range ks {
+		o := r.Case("base_mul/"+cn, true, "ec_base_mul", val.A(cn), val.I(k))
+		if ol, ok := o.(val.List); ok && len(ol) == 2 {
+			pts = append(pts, ol[1])
+		}
+	}
+	for pi, pv := range pts {
+		pl := val.AsList(pv)
+		x, y := val.AsInt(pl[0]), val.AsInt(pl[1])
+		variants := map[string][2]*big.Int{
+			"ok": {x, y}, "x+1": {add(x, 1), y}, "y+1": {x, add(y, 1)}, "swap": {y, x},
+			"x+p": {new(big.Int).Add(x, P), y}, "y+p": {x, new(big.Int).Add(y, P)}, "-x": {new(big.Int).Neg(x), y}, "-y": {x, new(big.Int).Neg(y)},
+			"x+2^256": {new(big.Int).Add(x, pow2(256)), y}, "p-y": {x, new(big.Int).Sub(P, y)}, "zero": {big.NewInt(0), big.NewInt(0)},
+		}
+		for name, xy := range variants {
+			if !r.Thorough() && pi > 2 && name != "ok" && name != "y+p" && name != "p-y" {
+				continue
+			}
+			a := []val.V{val.A(cn), val.I(xy[0]), val.I(xy[1])}
+			o := r.Case("new_ec_point/p256/"+name, true, "new_ec_point", a...)
+			if s := o.String(); s != "None" && s != "Err" && !canonicalOnCurve(cn, xy[0], xy[1]) {
+				r.Violate("point-accepted-off-curve|new_ec_point|"+cn, fmt.Sprintf("NewECPoint accepts (%s, %s) which is not a canonical point of %s", xy[0], xy[1], cn), vc.Line("new_ec_point", a))
+			}
+			// the registered curves must refuse it unless it happens to be theirs
+			for _, other := range []string{"secp256k1", "ed25519"} {
+				a2 := []val.V{val.A(other), val.I(xy[0]), val.I(xy[1])}
+				o2 := r.Case("new_ec_point/other-curve", true, "new_ec_point", a2...)
+				if s := o2.String(); s != "None" && s != "Err" && !canonicalOnCurve(other, xy[0], xy[1]) {
+					r.Violate("point-accepted-off-curve|new_ec_point|"+other, fmt.Sprintf("NewECPoint accepts (%s, %s) which is not a canonical point of %s", xy[0], xy[1], other), vc.Line("new_ec_point", a2))
+				}
+			}
+		}
+		fl := []*big.Int{x, y, x, y}
+		r.Case("unflatten/ok", true, "unflatten", val.A(cn), val.Ints(fl))
+		bad := []*big.Int{x, y, x, add(y, 1)}
+		if ub := r.Case("unflatten/bad", true, "unflatten", val.A(cn), val.Ints(bad)); ub.String() != "Err" {
+			r.Violate("unflatten-accepts-off-curve|"+cn, "UnFlattenECPoints accepts an off-curve pair", vc.Line("unflatten", []val.V{val.A(cn), val.Ints(bad)}))
+		}
+	}
+	scal := []*big.Int{big.NewInt(0), q, big.NewInt(1), big.NewInt(2), big.NewInt(8), add(q, -1), add(q, 1), mul(q, big.NewInt(3)), pow2(256), add(pow2(300), 12345), g.below(q), big.NewInt(-5)}
+	for i, p := range pts {
+		for _, k := range scal {
+			if !r.Thorough() && i > 2 && k.BitLen() > 8 {
+				continue
+			}
+			r.Case("smul/"+cn, true, "ec_smul", val.A(cn), p, val.I(k))
+		}
+		qv := pts[(i*5+3)%len(pts)]
+		sum := r.Case("add/"+cn, true, "ec_add", val.A(cn), p, qv)
+		sum2, _ := vc.Exec("ec_add", []val.V{val.A(cn), qv, p})
+		if sum.String() != sum2.String() {
+			r.Violate("group-law-comm|"+cn, "P+Q != Q+P", vc.Line("ec_add", []val.V{val.A(cn), p, qv}))
+		}
+		// doubling and the sum with the inverse (the point at infinity has no representation)
+		r.Case("add/"+cn+"/double", true, "ec_add", val.A(cn), p, p)
+		pl := val.AsList(p)
+		r.Case("add/"+cn+"/inverse", true, "ec_add", val.A(cn), p, val.L(pl[0], val.I(new(big.Int).Sub(P, val.AsInt(pl[1])))))
+	}
+}
+
 // ---------------- C17 ----------------
 func genC17(r *vc.Run) {
-	r.Rule = "every door through which a point enters (NewECPoint, UnFlattenECPoints, JSON with and without curve name, Gob) on on-curve points, perturbed / swapped / out-of-range / negative coordinates, the other curve's points, the 8 torsion points; Add / ScalarMult / ScalarBaseMult / EightInvEight against the Coq curve arithmetic (an independent affine implementation) with scalars {0,1,2,q-1,q,q+1,>q,random}; group laws checked on random triples; non-trivial = all cases"
+	r.Rule = "every door through which a point enters (NewECPoint, UnFlattenECPoints, JSON with and without curve name, Gob) on on-curve points, perturbed / swapped / out-of-range / negative coordinates, the other curve's points, the 8 torsion points; Add / ScalarMult / ScalarBaseMult / EightInvEight against the Coq curve arithmetic (an independent affine implementation) with scalars {0,1,2,q-1,q,q+1,>q,random}; group laws checked on random triples; the generic doors and the arithmetic again on NIST P-256 (a = -3, outside the registry); non-trivial = all cases"
 	g := rng{r}
 	npts := r.Pick(6, 30)
+	c17ThirdCurve(r, g)
 	for _, cn := range []string{"secp256k1", "ed25519"} {
 		ec := curveByName(cn)
 		q, P := ec.Params().N, ec.Params().P
@@ -366,6 +439,13 @@ func canonicalOnCurve(curve string, x, y *big.Int) bool {
 	if curve == "secp256k1" {
 		rhs := new(big.Int).Mul(x2, x)
 		rhs.Add(rhs, big.NewInt(7))
+		return new(big.Int).Mod(new(big.Int).Sub(y2, rhs), P).Sign() == 0
+	}
+	if curve == "p256" {
+		// y^2 = x^3 - 3x + b
+		rhs := new(big.Int).Mul(x2, x)
+		rhs.Sub(rhs, new(big.Int).Mul(big.NewInt(3), x))
+		rhs.Add(rhs, ec.Params().B)
 		return new(big.Int).Mod(new(big.Int).Sub(y2, rhs), P).Sign() == 0
 	}
 	d := bi("37095705934669439343138083508754565189542113879843219016388785533085940283555")
